@@ -141,6 +141,14 @@ pub fn dec_oracle(c: &Dec) -> Verdict {
         }
         Err(e) => return Verdict::Fail(format!("serialization fails: {e}")),
     }
+    // and through a data format that is not human readable (bincode / postcard style): whatever is written is read back
+    match lib!(crate::binfmt::to_tokens(&d)) {
+        Ok(t) => match lib!(crate::binfmt::from_tokens::<Duration>(&t)) {
+            Ok(b) => ensure!(b.to_parts() == d.to_parts(), "round trip through a non-human-readable serde format gives count {} for {} (tokens {:?})", count(b), cnt, t),
+            Err(e) => return Verdict::Fail(format!("what Serialize writes for a non-human-readable format ({:?}) is not accepted by Deserialize: {}", t, e)),
+        },
+        Err(e) => return Verdict::Fail(format!("serialization to a non-human-readable format fails: {e}")),
+    }
     let near_unit = [NS_S, NS_MIN, NS_H, NS_D].iter().any(|u| { let r = cnt.abs() % u; r <= 3 || u - r <= 3 });
     let class = if cnt.abs() > 104 * NS_D { ">104days" } else if near_unit { "near-unit-multiple" } else if cnt < 0 { "negative" } else { "plain" };
     Verdict::Pass(class, class != "plain")
